@@ -36,14 +36,28 @@ LEAN = {"module": "Pygom.Props.C08", "extra_modules": ["Pygom.Lemmas.Canary", "P
                      "Pygom.C08Source.extracted_good", "Pygom.C08Source.extracted_registered_watched",
                      "Pygom.C08Source.extracted_all_registered", "Pygom.C08Source.extracted_watches_all",
                      "Pygom.C08Source.extracted_master_is_ode", "Pygom.C08Source.extracted_eq_source",
-                     "Pygom.C08Source.never_stale_extracted"]}
+                     "Pygom.C08Source.never_stale_extracted",
+                     "Pygom.C08.two_instance_noninterference", "Pygom.C08.never_stale_pair", "Pygom.C08.never_stale_pair_source",
+                     "Pygom.C08.shared_store_stale_counterexample", "Pygom.C08.per_instance_store_fresh",
+                     "Pygom.C08Source.extracted_store_eq_source", "Pygom.C08Source.extracted_store_per_instance",
+                     "Pygom.C08Source.never_stale_pair_extracted"]}
 BUDGET = {"quick": {"cases": 200, "cases2": 70, "maxlen": 12, "maxlen2": 9, "search": 450},
           "thorough": {"cases": 300, "cases2": 100, "maxlen": 40, "maxlen2": 24, "search": 600}}
 RULE = ("random initial model (1-3 states, 1-3 params, 0-3 events, every API route incl. incremental ones) + random history "
         "(length 3..12 quick / 3..40 thorough) of mutators (add_event Event/bare Transition, add_transition, add_birth_death, "
         "add_ode, derived parameter, new parameter/state then used, parameter values as list/ndarray/tuples/permuted tuples/"
         "dict/partial dict/Symbol-keyed dict, rejected calls) interleaved with evaluations; all 12 evaluators (grad_grad included) observed "
-        "after every step on a replayed instance; non-trivial = some mutator or parameter assignment occurs after a compile")
+        "after every step on a replayed instance; the observation order is part of the case and so is, per observation, whether the "
+        "freshly constructed REFERENCE model (kept alive, like every instance the case builds) evaluates the evaluator BEFORE the "
+        "instance under test does (40% of the rounds never, 30% always, 30% per evaluator); every evaluator is also called at a SECOND "
+        "point (integer state and time) in the argument form of the round (state as list / tuple / ndarray of float, of int, int32 "
+        "array, lists of numpy float64 / int64 scalars; time as float / int / numpy float64 / int64) and must agree with the reference "
+        "called with a list of floats, without writing to the container; every array returned during a round (in-history "
+        "evaluations, both points) is kept and must be unchanged at the end of the round; 25% of the parameter assignments after "
+        "the second restore the values before the last.  70 further cases (thorough 100) run TWO live instances with the same names "
+        "(B built from the same definition, half of the time with the parameters declared in another order; own values), each with "
+        "its own history (3..9 ops in total, thorough ..24), interleaved at random, all 12 evaluators of both observed in one "
+        "random order after every step.  non-trivial = some mutator or parameter assignment occurs after a compile (of that instance)")
 ASSUMPTIONS = ["'fresh model' = SimulateOde built from the accumulated definition with no evaluator compiled before the last "
                "mutator, parameters assigned once as a full list (a parameter never given a value counts as 0, as "
                "`_paramValue = [0]*n` does)",
@@ -53,7 +67,9 @@ ASSUMPTIONS = ["'fresh model' = SimulateOde built from the accumulated definitio
                "VERIF_C08_CFG=as_found selects the model of the tree as found"]
 TRUSTED = ["harness generator / replay logic", "Lean driver JSON codec", "pymodel.build (route replay)",
            "harness/translate_canary.py: that the extracted table (which mutators follow every definition-changing statement by "
-           "trip(), HasNewTransition.states, add_func registrations, set_sp in the declaration setters) says what the Python text does"]
+           "trip(), HasNewTransition.states, add_func registrations, set_sp in the declaration setters, whether CompileCanary.trip() "
+           "rebinds self._states and __init__ calls trip()) says what the Python text does",
+           "not extracted (as modelled): CompileCanary.reset / __setattr__ write the flag of the one name into the dict the object holds"]
 
 
 def pre(tier):
@@ -63,11 +79,12 @@ def pre(tier):
     r = TC.regenerate(bootstrap.REPO)
     broken = [{"obligation": "translator: %s" % x["what"], "detail": "BROKEN TIE - source outside the translated subset: " + x["detail"]}
               for x in r["refused"]]
-    n = len(TC.MUTATORS) + 3
+    n = len(TC.MUTATORS) + 4
     return {"broken": broken, "obligations": n, "discharged": n - len(broken),
             "coverage": {"generated_files_changed": ["lean/Pygom/Gen/CanaryCfg.lean"] if r["changed"] else [],
                          "canary_translator": {"trips": r["trips"], "watched": r["watched"], "registered": r["registered"],
-                                               "declSetsSp": r["declSetsSp"], "per_mutator": r["detail"], "refusals": r["refused"]}}}
+                                               "declSetsSp": r["declSetsSp"], "tripRebinds": r["tripRebinds"], "initTrips": r["initTrips"],
+                                               "per_mutator": r["detail"], "refusals": r["refused"]}}}
 
 EVALS = ["ode", "jacobian", "grad", "diff_jacobian", "grad_jacobian", "grad_grad", "eventRateVector", "vMat", "pureOdeVector",
          "transitionJacobian", "transitionMean", "transitionVar"]
@@ -247,7 +264,7 @@ def make_case2(r, maxlen):
             "pv0": {p: _val(r) for p in meta["params"]},
             "pv0_b": {p: _val(r) for p in meta["params"]}}
     states = list(st_a) + [s for s in st_b if s not in st_a]
-    # half of the evaluators per instance and round (24 compiles per round otherwise); every evaluator has its turn
+    # all twelve evaluators of both instances, in ONE random order
     pairs = [[i, e] for i in (0, 1) for e in EVALS]
     _point_and_probes(r, case, states, len(ops), pairs)
     return case
